@@ -29,10 +29,34 @@ package text
 //@   loop 0:
 //@     invariant e.xobjectDepth == entry(e.xobjectDepth) && e.maxXObjectDepth == entry(e.maxXObjectDepth)
 
+// the six operands of cm / Tm in order a b c d e f
+//@ func operandsToMatrix results (m)
+//@   property C08
+//@   flags pure
+//@   ensures six_operands_in_order: len(operands) == 6 ==> forall k int :: {m[k]} 0 <= k && k < 6 ==> m[k] == toFloat(operands[k])
+//@   loop 0:
+//@     invariant len(operands) == 6 && forall k int :: {m[k]} 0 <= k && k < $i && k < 6 ==> m[k] == toFloat(operands[k])
+
+// Operator dispatch (C08): every graphics-state / text-positioning operator reaches the state operation ISO 32000
+// assigns to it, with its operands in operand order; ' and " move to the next line BEFORE showing their string.
 //@ func (*Extractor) processOperation results (err)
-//@   property C02
+//@   property C02, C08
 //@   flags nosafety
 //@   decreases e.maxXObjectDepth - e.xobjectDepth, 1
+//@   count nl: NextLine() when true
+//@   callsite Save() requires op.Operator == "q"
+//@   callsite Restore() requires op.Operator == "Q"
+//@   callsite Transform(m) requires op.Operator == "cm" && m == operandsToMatrix(op.Operands)
+//@   callsite BeginText() requires op.Operator == "BT"
+//@   callsite SetLeading(l) requires op.Operator == "TL" && l == toFloat(op.Operands[0])
+//@   callsite SetTextMatrix(m) requires op.Operator == "Tm" && m == operandsToMatrix(op.Operands)
+//@   callsite TranslateText(tx, ty) requires op.Operator == "Td" && tx == toFloat(op.Operands[0]) && ty == toFloat(op.Operands[1])
+//@   callsite TranslateTextSetLeading(tx, ty) requires op.Operator == "TD" && tx == toFloat(op.Operands[0]) && ty == toFloat(op.Operands[1])
+//@   callsite NextLine() requires op.Operator == "T*" || op.Operator == "'" || op.Operator == "\""
+//@   callsite showText#1(d) requires op.Operator == "Tj" && nl == 0
+//@   callsite showText#2(d) requires op.Operator == "'" && nl == 1
+//@   callsite showText#3(d) requires op.Operator == "\"" && nl == 1
+//@   callsite showTextArray(a) requires op.Operator == "TJ"
 //@   ensures depth_restored: e.xobjectDepth == old(e.xobjectDepth) && e.maxXObjectDepth == old(e.maxXObjectDepth)
 
 // ---- C08: showing text never disturbs the line matrix or the CTM ----
